@@ -25,6 +25,7 @@ def run(model, rep, tier):
     r6_labels(ctx, rep)
     r7_entry_shapes(ctx, rep)
     r8_per_object_state(ctx, rep)
+    c02.accumulators_never_discarded(ctx, rep, 'C12.R9')
     rep.units['cfg'] = ctx.cfg_stats
 
 
